@@ -252,11 +252,14 @@ Proof.
   intros WF Hf. unfold wf_scorerb in WF. unfold py_scorer_parse, scorer_level, sc_ngramZ. cbv zeta.
   destruct (sc_ngram Sc) as [ng|] eqn:ENG; cbn [levelZ].
   - apply Nat.leb_le in WF. destruct ng as [|n1]; [lia|].
-    replace ((zlen s <? Z.of_nat (S n1))%Z || (zlen (sc_ln Sc) - 1 <? zlen s)%Z)
-      with (Nat.ltb (length s) (S n1) || Nat.ltb (length (sc_ln Sc) - 1) (length s)).
-    2:{ unfold zlen. destruct (Nat.ltb_spec (length s) (S n1)); destruct (Nat.ltb_spec (length (sc_ln Sc) - 1) (length s));
-        destruct (Z.ltb_spec (Z.of_nat (length s)) (Z.of_nat (S n1)));
-        destruct (Z.ltb_spec (Z.of_nat (length (sc_ln Sc)) - 1) (Z.of_nat (length s))); try reflexivity; lia. }
+    (* the length test: `len < ngram or len > max_len`, or `not ngram <= len <= max_len`, ... *)
+    match goal with |- (if ?c then _ else _) = _ =>
+      replace c with (Nat.ltb (length s) (S n1) || Nat.ltb (length (sc_ln Sc) - 1) (length s)) end.
+    2:{ unfold zlen. destruct (Nat.ltb_spec (length s) (S n1)); destruct (Nat.ltb_spec (length (sc_ln Sc) - 1) (length s)); cbn [orb];
+        repeat match goal with
+               | |- context [(?a <? ?b)%Z] => destruct (Z.ltb_spec a b)
+               | |- context [(?a <=? ?b)%Z] => destruct (Z.leb_spec a b)
+               end; cbn [negb andb orb]; try reflexivity; lia. }
     destruct (Nat.ltb (length s) (S n1) || Nat.ltb (length (sc_ln Sc) - 1) (length s)) eqn:EG; [reflexivity|].
     apply orb_false_elim in EG. destruct EG as [G1 G2]. apply Nat.ltb_ge in G1, G2.
     replace (S n1 - 1) with n1 by lia.
@@ -285,8 +288,14 @@ Proof.
     f_equal. lia.
   - (* ngram = -1: no CP line, the first self.cp[...] raises KeyError whatever the string *)
     destruct (sc_cp Sc) as [|x r] eqn:ECP; [|discriminate].
-    replace (zlen s <? -1)%Z with false by (symmetry; apply Z.ltb_ge; unfold zlen; lia). cbn [orb].
-    destruct (zlen (sc_ln Sc) - 1 <? zlen s)%Z eqn:EG; [reflexivity|]. apply Z.ltb_ge in EG. unfold zlen in EG.
+    match goal with |- (if ?c then _ else _) = _ => destruct c eqn:EG0 end; [reflexivity|].
+    assert (EG : (Z.of_nat (length s) <= Z.of_nat (length (sc_ln Sc)) - 1)%Z).
+    { unfold zlen in EG0. revert EG0.
+      repeat match goal with
+             | |- context [(?a <? ?b)%Z] => destruct (Z.ltb_spec a b)
+             | |- context [(?a <=? ?b)%Z] => destruct (Z.leb_spec a b)
+             end; cbn [negb andb orb]; intro; try discriminate; lia. }
+    clear EG0.
     destruct (nth_error (sc_ln Sc) (length s)) as [ll|] eqn:ELN.
     2:{ apply nth_error_None in ELN. lia. }
     rewrite (pyindex_in (sc_ln Sc) (zlen s) ll);
